@@ -35,6 +35,8 @@ MANIFEST = {
             "the final-lattice form uses only the public lattice). Lattice entries are compared by identity only.",
     "technique": "exhaustive enumeration of a synthetic seam, explicit-state BFS over seam operation sequences, bounded-exhaustive runs and width histories",
 }
+MANIFEST["text"] += " " + (
+    'Added after the seeding waves: in one-shot runs no postponed entry may have a successor; known findings D16 (two forms) and D19 are recognised by structural predicates on the pruned and the unpruned lattice.')
 BUDGET = {"quick": 420, "thorough": 3000}
 RULE = ("states = synthetic columns / distinct seam states / lattice layers inspected, transitions = prune calls, seam operations and "
         "matcher runs, traces validated = pruned-vs-unpruned and widening comparisons; non-trivial = some candidate was actually "
